@@ -216,6 +216,15 @@ func (d *dialer) peer(c net.Conn, cid int) {
 			send(fmt.Sprintf("HTTP/1.1 200 OK\r\nContent-Length: %d\r\n\r\n%s", len(body), body))
 		case "okchunked":
 			send(fmt.Sprintf("HTTP/1.1 200 OK\r\nTransfer-Encoding: chunked\r\n\r\n%x\r\n%s\r\n0\r\n\r\n", len(body), body))
+		case "bigok": // a body longer than the 8 KiB a streamed response prefetches
+			big := body + ";" + strings.Repeat("p", 20000-len(body)-1)
+			send(fmt.Sprintf("HTTP/1.1 200 OK\r\nContent-Length: %d\r\n\r\n%s", len(big), big))
+		case "bigstall": // 9000 of 20000 body bytes, then silence until the client gives up
+			big := body + ";" + strings.Repeat("p", 9000-len(body)-1)
+			fmt.Fprintf(c, "HTTP/1.1 200 OK\r\nContent-Length: 20000\r\n\r\n%s", big)
+			io.Copy(io.Discard, br)
+			d.log.add("peer-close", cid, id, plan)
+			return
 		case "okclose":
 			send(fmt.Sprintf("HTTP/1.1 200 OK\r\nConnection: close\r\nContent-Length: %d\r\n\r\n%s", len(body), body))
 			d.log.add("peer-close", cid, id, plan)
@@ -276,7 +285,7 @@ func installYield() {
 
 // ---- one run ----------------------------------------------------------------------
 
-var plans = []string{"ok", "ok", "ok", "ok", "okchunked", "okclose", "closebefore", "midheader", "midbody", "stall", "okthenclose"}
+var plans = []string{"ok", "ok", "ok", "ok", "bigok", "bigstall", "okchunked", "okclose", "closebefore", "midheader", "midbody", "stall", "okthenclose"}
 
 type doRec struct {
 	id, plan, method string
@@ -488,7 +497,7 @@ func oneRun(w *mon.W, c *mon.Case) {
 		for i := range recs[g] {
 			rec := &recs[g][i]
 			byID[rec.id] = rec
-			if rec.plan != "ok" && rec.plan != "okchunked" {
+			if rec.plan != "ok" && rec.plan != "okchunked" && rec.plan != "bigok" {
 				faults++
 			}
 			if rec.err == nil {
@@ -496,7 +505,7 @@ func oneRun(w *mon.W, c *mon.Case) {
 					fail("matching", "Do(%s, plan %s) succeeded with the response body %q, which answers another request", rec.id, rec.plan, rec.body)
 					return
 				}
-				if rec.plan != "ok" && rec.plan != "okchunked" && rec.plan != "okclose" && rec.plan != "okthenclose" {
+				if rec.plan != "ok" && rec.plan != "bigok" && rec.plan != "okchunked" && rec.plan != "okclose" && rec.plan != "okthenclose" {
 					fail("matching", "Do(%s) succeeded although the peer's plan was %s", rec.id, rec.plan)
 					return
 				}
@@ -545,7 +554,7 @@ func oneRun(w *mon.W, c *mon.Case) {
 			return
 		case "acquire-touch":
 			if cs.lastID != "" && !cs.touched {
-				if !cs.lastEnded || (cs.lastPlan != "ok" && cs.lastPlan != "okchunked" && cs.lastPlan != "okthenclose") {
+				if !cs.lastEnded || (cs.lastPlan != "ok" && cs.lastPlan != "bigok" && cs.lastPlan != "okchunked" && cs.lastPlan != "okthenclose") {
 					fail("dirty-reuse", "connection %d was taken for another exchange although the exchange of %s on it had not completed cleanly (plan %s, response fully sent: %v)", e.conn, cs.lastID, cs.lastPlan, cs.lastEnded)
 					return
 				}
@@ -558,7 +567,7 @@ func oneRun(w *mon.W, c *mon.Case) {
 					fail("exclusion", "connection %d: request %s was written while the exchange of %s (plan %s) was still in progress", e.conn, e.id, cs.lastID, cs.lastPlan)
 					return
 				}
-				if cs.lastPlan != "ok" && cs.lastPlan != "okchunked" && cs.lastPlan != "okthenclose" {
+				if cs.lastPlan != "ok" && cs.lastPlan != "bigok" && cs.lastPlan != "okchunked" && cs.lastPlan != "okthenclose" {
 					fail("dirty-reuse", "connection %d carried %s after the exchange of %s ended with plan %s", e.conn, e.id, cs.lastID, cs.lastPlan)
 					return
 				}
